@@ -208,8 +208,8 @@ theorem children_ne_nil_of_below {fs : T} (hw : WF fs) {b q : Path} {e : Entry} 
     exact children_ne_nil_of_get hpe
 
 /-- Rename: the model stays well-formed and Lstat changes only at or below the two names -/
-theorem rename_frame {fs fs1 : T} {a b : Path} (h : rename fs a b = .ok fs1) (hw : WF fs) :
-    WF fs1 ∧ ∀ q, ¬ a <+: q → ¬ b <+: q → viewAt fs1 q = viewAt fs q := by
+theorem rename_frame' {fs fs1 : T} {a b : Path} (h : rename fs a b = .ok fs1) (hw : WF fs) :
+    WF fs1 ∧ (∀ q, ¬ a <+: q → ¬ b <+: q → viewAt fs1 q = viewAt fs q) ∧ (fs1 = fs ∨ (¬ a <+: b ∧ ¬ b <+: a)) := by
   unfold rename at h
   split at h
   · simp at h
@@ -254,7 +254,7 @@ theorem rename_frame {fs fs1 : T} {a b : Path} (h : rename fs a b = .ok fs1) (hw
               intro hp
               obtain ⟨pe, hpe, _⟩ := prefix_is_dir hw hga hp
               rw [hgb] at hpe; simp at hpe
-            exact ⟨wf_moveTree a b hw hab hba hbne hgpb hpbd, fun q h1 h2 => viewAt_moveTree_other fs a b q h1 h2⟩
+            exact ⟨wf_moveTree a b hw hab hba hbne hgpb hpbd, fun q h1 h2 => viewAt_moveTree_other fs a b q h1 h2, .inr ⟨hab, hba⟩⟩
       · simp at h
       · -- the new name exists
         rename_i eb hwb
@@ -265,7 +265,7 @@ theorem rename_frame {fs fs1 : T} {a b : Path} (h : rename fs a b = .ok fs1) (hw
           split at h
           · simp only [Except.ok.injEq] at h
             subst h
-            exact ⟨hw, fun _ _ _ => rfl⟩
+            exact ⟨hw, fun _ _ _ => rfl, .inl rfl⟩
           · rename_i hneab
             split at h
             · simp at h
@@ -298,7 +298,27 @@ theorem rename_frame {fs fs1 : T} {a b : Path} (h : rename fs a b = .ok fs1) (hw
                       by_cases hk : ea.kind = .dir
                       · exact hc3 ⟨hk, hch⟩
                       · exact hc2 ⟨hk, hebd⟩
-                    exact ⟨wf_moveTree a b hw hab hba hbne hgpb hpbd, fun q h1 h2 => viewAt_moveTree_other fs a b q h1 h2⟩
+                    exact ⟨wf_moveTree a b hw hab hba hbne hgpb hpbd, fun q h1 h2 => viewAt_moveTree_other fs a b q h1 h2, .inr ⟨hab, hba⟩⟩
+
+
+theorem rename_frame {fs fs1 : T} {a b : Path} (h : rename fs a b = .ok fs1) (hw : WF fs) :
+    WF fs1 ∧ ∀ q, ¬ a <+: q → ¬ b <+: q → viewAt fs1 q = viewAt fs q :=
+  ⟨(rename_frame' h hw).1, (rename_frame' h hw).2.1⟩
+
+/-- a successful Rename leaves what Lstat shows at the two parent directories as it was -/
+theorem rename_parents {fs fs1 : T} {d1 d2 : Path} {n1 n2 : Name} (h : rename fs (d1 ++ [n1]) (d2 ++ [n2]) = .ok fs1) (hw : WF fs) :
+    viewAt fs1 d1 = viewAt fs d1 ∧ viewAt fs1 d2 = viewAt fs d2 := by
+  obtain ⟨_, hview, hinc⟩ := rename_frame' h hw
+  rcases hinc with heq | ⟨hab, hba⟩
+  · rw [heq]; exact ⟨rfl, rfl⟩
+  · have longer : ∀ (d : Path) (n : Name), ¬ (d ++ [n]) <+: d := by
+      intro d n hp
+      have := hp.length_le
+      simp only [List.length_append, List.length_cons, List.length_nil] at this
+      omega
+    refine ⟨hview d1 (longer d1 n1) ?_, hview d2 ?_ (longer d2 n2)⟩
+    · intro hp; exact hba (hp.trans (List.prefix_append d1 [n1]))
+    · intro hp; exact hab (hp.trans (List.prefix_append d2 [n2]))
 
 end Fs
 end Absnfs
